@@ -480,6 +480,8 @@ def run(R):
                         R.mon["two_root_eomv_first_families"] += 1
     if R.shard == 1 % R.nshards:
         error_and_cut_families(R)
+    if R.shard == 2 % R.nshards:
+        many_aborted_walks(R)
     complete = True
     sizes = (2, 3) if R.tier == "quick" else (2, 3, 4)
     for k in sizes:
@@ -587,6 +589,36 @@ def error_and_cut_families(R):
                     run_err_op(R, 1, V2C("public"), inst, dict(cut=(nresp, keep)), "bulkwalk", "strict", bulk, roots)
 
 
+def many_aborted_walks(R):
+    """One long-lived client runs lenient walks against faulty devices hundreds of times
+    (each fault a different one): walk number 300 still ends normally with what was
+    received."""
+    seam = Seam(lambda data: None)
+    client = Client("192.0.2.1", V2C("public"), sender=seam)
+    for j in range(320):
+        stuck = ROOT + (1, j + 1)
+        chain = {ROOT: ROOT + (1, 0), ROOT + (1, 0): stuck, stuck: stuck if j % 2 else ROOT + (1, 0)}
+        agent = ScriptedAgent(table_f(chain))
+        seam.responder = agent.handle
+        seam.reset(budget=20)
+        try:
+            res = ("ok", drive_agen(client.walk(OID(ROOT), errors=rig.lenient()), limit=50))
+        except rig.BudgetExceeded:
+            res = ("budget", None)
+        except Exception as exc:  # noqa: BLE001
+            res = ("exc", exc)
+        R.evaluations += 1
+        case = {"f": {"kind": "many-aborted", "j": j}, "op": "walk", "mode": "warn", "bulk": None, "roots": [list(ROOT)]}
+        if res[0] != "ok":
+            R.violation(case, "lenient walk number %d on one client (each against another faulty device) did not end normally: %r" % (j + 1, res[1] if res[0] == "exc" else "request budget"), None)
+            return
+        got = [oid_t(vb.oid) for vb in res[1]]
+        if got != [ROOT + (1, 0), stuck]:
+            R.violation(case, "lenient walk number %d delivered %r, the device revealed %r before it stalled" % (j + 1, got, [ROOT + (1, 0), stuck]), None)
+            return
+    R.mon["long_lived_lenient_client_ok"] += 1
+
+
 def run_err_op(R, version, cred, inst, akw, op, mode, bulk, roots):
     agent = ErrAgent(version, inst, **akw)
     seam = Seam(agent.handle)
@@ -633,6 +665,9 @@ def run_err_op(R, version, cred, inst, akw, op, mode, bulk, roots):
 def replay(R, v):
     c = v["case"]
     fd = c["f"]
+    if fd["kind"] == "many-aborted":
+        many_aborted_walks(R)
+        return
     if fd["kind"] == "err-agent":
         from puresnmp.credentials import V1
 
